@@ -143,6 +143,7 @@ type c19Item struct {
 
 type c19Prog struct {
 	small bool // a 4-5 file program (option sweep) instead of the many-entries one
+	dup   bool // two files in different directories share a base name (never included by one file)
 	seed  uint64
 	paths []string // relative path of file i; 0 is the root
 	items []c19Item
@@ -622,21 +623,44 @@ var c19Dirs = []string{"", "", "sub1", "sub1/deep", "sub2", "lib/x", "lib/x/y", 
 
 // c19Generate builds the program of a seed.  No two files have the same base
 // name (known finding html-same-basename-modules is outside the generated class).
+// program tokens: s = many-entries, t = small, u = many-entries with a repeated base name, v = small with one
 func (p *c19Prog) seedToken() string {
-	if p.small {
-		return "t" + strconv.FormatUint(p.seed, 10)
+	c := "s"
+	switch {
+	case p.small && p.dup:
+		c = "v"
+	case p.dup:
+		c = "u"
+	case p.small:
+		c = "t"
 	}
-	return "s" + strconv.FormatUint(p.seed, 10)
+	return c + strconv.FormatUint(p.seed, 10)
 }
 
-func c19Generate(seed uint64) *c19Prog { return c19GenerateSized(seed, false) }
+func c19FromToken(tok string) (*c19Prog, bool) {
+	if len(tok) < 2 || !strings.ContainsRune("stuv", rune(tok[0])) {
+		return nil, false
+	}
+	seed, err := strconv.ParseUint(tok[1:], 10, 64)
+	if err != nil {
+		return nil, false
+	}
+	return c19GenerateKind(seed, tok[0] == 't' || tok[0] == 'v', tok[0] == 'u' || tok[0] == 'v'), true
+}
 
-func c19GenerateSized(seed uint64, small bool) *c19Prog {
+func c19Generate(seed uint64) *c19Prog { return c19GenerateKind(seed, false, false) }
+
+func c19GenerateSized(seed uint64, small bool) *c19Prog { return c19GenerateKind(seed, small, false) }
+
+func c19GenerateKind(seed uint64, small, dup bool) *c19Prog {
 	r := NewRng(seed)
-	g := &c19Gen{r: r, p: &c19Prog{seed: seed, small: small}}
+	g := &c19Gen{r: r, p: &c19Prog{seed: seed, small: small, dup: dup}}
 	n := 14 + r.Intn(6)
 	if small {
 		n = 4 + r.Intn(2)
+		if dup {
+			n = 5
+		}
 	}
 	for i := 0; i < n; i++ {
 		name := fmt.Sprintf("f%02d%s", i, c19Word(r, 1))
@@ -653,6 +677,12 @@ func c19GenerateSized(seed uint64, small bool) *c19Prog {
 		}
 		g.p.paths = append(g.p.paths, filepath.Join(dir, name+ext))
 		g.syms = append(g.syms, &c19Syms{name: name})
+	}
+	if dup { // the two last files get one base name, in different directories
+		a, b := n-2, n-1
+		g.syms[b].name = g.syms[a].name
+		g.p.paths[a] = filepath.Join("dupa", g.syms[a].name+filepath.Ext(g.p.paths[a]))
+		g.p.paths[b] = filepath.Join("dupb", "deeper", g.syms[b].name+filepath.Ext(g.p.paths[b]))
 	}
 	// include DAG: file i includes only files j > i; the root includes >= 12 files
 	incs := make([][]int, n)
@@ -688,6 +718,26 @@ func c19GenerateSized(seed uint64, small bool) *c19Prog {
 		if !included[j] {
 			incs[0] = append(incs[0], j)
 		}
+	}
+	if dup {
+		// no file may include both same-named files (validateIncludes rejects that; transitive is allowed):
+		// the root includes a, file 1 includes b and not a, nobody else includes b
+		a, b := n-2, n-1
+		drop := func(l []int, x int) []int {
+			out := l[:0:0]
+			for _, y := range l {
+				if y != x {
+					out = append(out, y)
+				}
+			}
+			return out
+		}
+		for i := range incs {
+			incs[i] = drop(incs[i], b)
+		}
+		incs[1] = append(drop(incs[1], a), b)
+		incs[0] = append(drop(incs[0], a), a)
+		incs[0] = append(drop(incs[0], 1), 1)
 	}
 	vendored := map[int]bool{}
 	for _, j := range incs[0] {
@@ -1484,6 +1534,12 @@ func c19TaskFiles(p *c19Prog, files map[string]string, gen string, R int, inproc
 		}
 	}
 	for _, r := range runs[1:] {
+		if p.dup && strings.HasPrefix(gen, "html") {
+			// recorded finding html-same-basename-modules: exactly index.html of a program with a
+			// repeated base name is outside the comparison; every other file, every other target is in
+			delete(runs[0].hashes, "index.html")
+			delete(r.hashes, "index.html")
+		}
 		if f, ex := c19Diff(runs[0], r); f != "" {
 			res.what = "c19: emitted files differ between runs of the same program and options: target=" + gen
 			res.detail["first_differing_file"] = f
@@ -1501,6 +1557,132 @@ func c19TaskFiles(p *c19Prog, files map[string]string, gen string, R int, inproc
 	// no absolute scratch location may leak into the text (location independence,
 	// checked directly as well: a leak that is the same in all runs cannot happen
 	// because the locations differ, but a leak of the -out *argument* could)
+	res.ok = true
+	return res
+}
+
+
+// ---------------------------------------------------------------- output-directory history
+
+// The directory given as -out may already hold output: of the same program with other options
+// of the same target, of a superset / subset of the program, of another target, of the very same
+// compile.  ORACLE: every file the compile writes into a FRESH directory is written byte-identically
+// into the used one (exactly the paths of the fresh result are compared; files the compile does
+// not write may remain).
+
+var c19SiblingGens = map[string][]string{
+	"go": {"go:slim", "go"}, "java": {"java:async,boxed_primitives", "java"}, "dart": {"dart:use_enums", "dart"},
+	"py": {"py:tornado", "py:asyncio", "py"}, "json": {"json:indent", "json"}, "html": {"html:standalone", "html"},
+}
+var c19OtherTarget = map[string]string{"go": "java", "java": "go", "dart": "py:tornado", "py": "dart", "json": "html", "html": "json"}
+
+var c19HistVariants = []string{"opts", "sup", "sub", "target", "twice"}
+
+// c19SubsetKeep drops the last service and the last scope of the root file (nothing refers to them).
+func c19SubsetKeep(p *c19Prog, keep []bool) []bool {
+	sub := append([]bool{}, keep...)
+	for _, kind := range []string{"service", "scope"} {
+		for i := len(p.items) - 1; i >= 0; i-- {
+			if sub[i] && p.items[i].file == 0 && p.items[i].kind == kind {
+				sub[i] = false
+				break
+			}
+		}
+	}
+	return sub
+}
+
+func c19CompileInto(base, src, rootRel, gen, out string) c19Run {
+	cwd := filepath.Join(base, "wd0")
+	os.MkdirAll(cwd, 0o755)
+	os.MkdirAll(filepath.Dir(out), 0o755)
+	return c19Exec(c19Layout{src: src, cwd: cwd, fileArg: filepath.Join(src, rootRel), outArg: out, outAbs: out, desc: "out=" + strings.TrimPrefix(out, base)}, gen)
+}
+
+// c19History runs one history variant of (program, keep, gen).
+func c19History(p *c19Prog, keep []bool, gen, variant string) c19Result {
+	res := c19Result{detail: map[string]interface{}{}}
+	line := fmt.Sprintf("c19hist %s %s %s %s", p.seedToken(), gen, variant, c19KeepString(keep))
+	res.detail["line"] = line
+	res.detail["target"] = gen
+	res.detail["history"] = variant
+	lang, _ := c19Lang(gen)
+	base, err := os.MkdirTemp("", "verif-c19h-")
+	if err != nil {
+		res.invalid = err.Error()
+		return res
+	}
+	defer os.RemoveAll(base)
+	full, _ := p.render(keep)
+	subKeep := c19SubsetKeep(p, keep)
+	sub, _ := p.render(subKeep)
+	srcFull, srcSub := filepath.Join(base, "full"), filepath.Join(base, "sub")
+	c19WriteTree(srcFull, full)
+	c19WriteTree(srcSub, sub)
+	// main = what is compiled last (and, alone, into the fresh directory); pre = what the directory holds before
+	mainSrc, mainGen, preSrc, preGen, desc := srcFull, gen, srcFull, gen, ""
+	switch variant {
+	case "opts":
+		for _, g := range c19SiblingGens[lang] {
+			if g != gen {
+				preGen = g
+				break
+			}
+		}
+		desc = "the same program compiled with -gen " + preGen
+	case "sup":
+		mainSrc = srcSub
+		desc = "a superset of the program (one more service and scope in the root file), same options"
+	case "sub":
+		preSrc = srcSub
+		desc = "a subset of the program (one service and one scope of the root file less), same options"
+	case "target":
+		preGen = c19OtherTarget[lang]
+		desc = "the same program compiled with -gen " + preGen
+	case "twice":
+		desc = "the same compile"
+	default:
+		res.invalid = "bad variant"
+		return res
+	}
+	res.detail["directory_held"] = desc
+	fresh := c19CompileInto(base, mainSrc, p.paths[0], mainGen, filepath.Join(base, "fresh", "gen"))
+	used := filepath.Join(base, "used", "gen")
+	pre := c19CompileInto(base, preSrc, p.paths[0], preGen, used)
+	res.runs = 3
+	if fresh.err != "" || pre.err != "" {
+		res.invalid = "does not compile: " + fresh.err + pre.err
+		res.ok = true
+		return res
+	}
+	again := c19CompileInto(base, mainSrc, p.paths[0], mainGen, used)
+	if again.err != "" {
+		res.what = "c19: compiling into a directory that already holds output fails: target=" + gen + " history=" + variant
+		res.detail["error"] = again.err
+		return res
+	}
+	keys := make([]string, 0, len(fresh.hashes))
+	for k := range fresh.hashes {
+		keys = append(keys, k)
+	}
+	sort.Strings(keys)
+	for _, k := range keys {
+		if again.hashes[k] != fresh.hashes[k] {
+			res.what = "c19: a file written into an -out directory that already held output differs from the fresh-directory result: target=" + gen + " history=" + variant
+			res.detail["first_differing_file"] = k
+			if _, ok := again.hashes[k]; !ok {
+				res.detail["diff"] = "file not written"
+			} else {
+				a, _ := os.ReadFile(filepath.Join(fresh.out, filepath.FromSlash(k)))
+				b, _ := os.ReadFile(filepath.Join(again.out, filepath.FromSlash(k)))
+				res.detail["diff"] = c19Excerpt(string(a), string(b))
+			}
+			if len(full) <= 6 {
+				res.detail["program"] = full
+			}
+			return res
+		}
+	}
 	res.ok = true
 	return res
 }
@@ -1623,6 +1805,7 @@ func runC19(r *Rng, n int) {
 		R     int
 		inpro bool
 		kinds []int // explicit layouts (sweep); nil = the first R
+		hist  string // output-directory history variant (c19History) instead of the layout runs
 	}
 	var tasks []task
 	nSmall := n / 4
@@ -1660,7 +1843,7 @@ func runC19(r *Rng, n int) {
 				if R <= 8 {
 					kinds = append([]int{0, 1}, rot[k%len(rot)]...)
 				}
-				tasks = append(tasks, task{p, g, len(kinds), R > 8, kinds})
+				tasks = append(tasks, task{p, g, len(kinds), R > 8, kinds, ""})
 			}
 		} else {
 			for k, g := range c19BaseGens {
@@ -1668,7 +1851,37 @@ func runC19(r *Rng, n int) {
 				if R <= 8 && i > 0 && (k+i)%2 != 0 {
 					continue
 				}
-				tasks = append(tasks, task{p, g, R, i == 0 || R > 8, nil})
+				tasks = append(tasks, task{p, g, R, i == 0 || R > 8, nil, ""})
+			}
+		}
+	}
+	// programs with a repeated base name (two files in different directories, never included by one
+	// file): every base configuration of every target, with repetition
+	nDup := 1
+	if R > 8 {
+		nDup = 3
+	}
+	for i := 0; i < nDup; i++ {
+		p := c19GenerateKind(r.U64(), !(R > 8 && i == 0), true)
+		Stat("programs-repeated-basename")
+		for _, g := range c19BaseGens {
+			tasks = append(tasks, task{p, g, 6, R > 8, nil, ""})
+		}
+	}
+	// output-directory history: the small programs (thorough: and one big one) for every base configuration
+	for _, t := range append([]task{}, tasks...) {
+		if t.hist == "" && t.kinds != nil && t.gen == sweep[0] { // one marker task per small program
+			for _, g := range c19BaseGens {
+				for _, v := range c19HistVariants {
+					tasks = append(tasks, task{t.p, g, 0, false, nil, v})
+				}
+			}
+		}
+	}
+	if R > 8 {
+		for _, g := range c19BaseGens {
+			for _, v := range c19HistVariants {
+				tasks = append(tasks, task{tasks[0].p, g, 0, false, nil, v})
 			}
 		}
 	}
@@ -1690,6 +1903,23 @@ func runC19(r *Rng, n int) {
 			defer wg.Done()
 			for t := range ch {
 				keep := c19AllKeep(t.p)
+				if t.hist != "" {
+					res := c19History(t.p, keep, t.gen, t.hist)
+					Stat("evaluations")
+					Stat("history:" + t.hist)
+					StatN("compiler-runs", res.runs)
+					if res.invalid != "" {
+						Stat("history-invalid")
+						continue
+					}
+					out := "ok same"
+					if !res.ok {
+						out = "ok differ"
+						OracleFail(res.what, res.detail)
+					}
+					Case(res.detail["line"].(string), out)
+					continue
+				}
 				var res c19Result
 				if len(t.kinds) > 0 {
 					res = c19TaskKinds(t.p, keep, t.gen, t.kinds, t.inpro)
@@ -1789,7 +2019,7 @@ func c19Report(p *c19Prog, keep []bool, gen string, res c19Result) {
 			Case(in, o)
 		}
 	}
-	if len(res.mods) > 0 {
+	if len(res.mods) > 0 && !p.dup {
 		rootName := strings.TrimSuffix(filepath.Base(p.paths[0]), filepath.Ext(p.paths[0]))
 		min := fmt.Sprintf("c19mods %s 0 %s", rootName, c19GraphString(graph))
 		for _, o := range res.mods {
@@ -1836,17 +2066,19 @@ func init() {
 	suites["c19"] = runC19
 	// c19det <s|t><progseed> <gen> <R> <keep>   (s = many-entries program, t = small program)
 	lineOps["c19det"] = func(args []string) (string, bool) {
-		if len(args) != 4 || len(args[0]) < 2 || (args[0][0] != 's' && args[0][0] != 't') {
+		if len(args) != 4 {
 			return "bad-op", true
 		}
-		seed, e1 := strconv.ParseUint(args[0][1:], 10, 64)
 		gen := args[1]
 		R, e3 := strconv.Atoi(args[2])
-		if e1 != nil || e3 != nil || !c19ValidGen(gen) || R < 2 || R > 64 {
+		if e3 != nil || !c19ValidGen(gen) || R < 2 || R > 64 {
+			return "bad-op", true
+		}
+		p, okp := c19FromToken(args[0])
+		if !okp {
 			return "bad-op", true
 		}
 		c19Setup()
-		p := c19GenerateSized(seed, args[0][0] == 't')
 		keep := c19ParseKeep(args[3], len(p.items))
 		if R < 8 { // a replay (corpus, shrinking) should not miss a difference that shows in some runs only
 			R = 8
@@ -1860,6 +2092,26 @@ func init() {
 		if !res.ok {
 			OracleFail(res.what, res.detail)
 			return "ok differ", true // the failure has been reported with its detail
+		}
+		return "ok same", true
+	}
+	// c19hist <token> <gen> <variant> <keep>: the -out directory already holds output (see c19History)
+	lineOps["c19hist"] = func(args []string) (string, bool) {
+		if len(args) != 4 || !c19ValidGen(args[1]) {
+			return "bad-op", true
+		}
+		p, okp := c19FromToken(args[0])
+		if !okp {
+			return "bad-op", true
+		}
+		c19Setup()
+		res := c19History(p, c19ParseKeep(args[3], len(p.items)), args[1], args[2])
+		if res.invalid == "bad variant" {
+			return "bad-op", true
+		}
+		if res.invalid == "" && !res.ok {
+			OracleFail(res.what, res.detail)
+			return "ok differ", true
 		}
 		return "ok same", true
 	}
